@@ -657,6 +657,26 @@ fn segments(t: &mut T, a: &Args) {
             t.expect("FS/GS base", &format!("{}::write_base {:#x}", if w == 0 { "FS" } else { "GS" }, nv), &ev, &[Ev::WrBase(w, nv)]);
         }
     }
+    // FS/GS base through the model-specific register named by Segment64::BASE (the documented way without FSGSBASE)
+    for v in thin(a, canon()) {
+        for (w, msr) in [(0u8, MSR_FS_BASE), (1u8, MSR_GS_BASE)] {
+            cpu().msr_set(msr, v);
+            let nm = if w == 0 { "FS" } else { "GS" };
+            let (rv, ev) = stepped(|| unsafe { if w == 0 { <FS as Segment64>::BASE.read() } else { <GS as Segment64>::BASE.read() } });
+            let case = format!("{}::BASE.read {:#x}", nm, v);
+            if t.expect("FS/GS base", &case, &ev, &[Ev::Rdmsr(msr, v)]) && rv != Ok(v) {
+                t.bad("FS/GS base", "Segment64::BASE-read-wrong", &case, format!("{:x?}", rv));
+            }
+            let nv = sext48(!v);
+            let (_, ev) = stepped(|| unsafe { if w == 0 { let mut m = <FS as Segment64>::BASE; m.write(nv) } else { let mut m = <GS as Segment64>::BASE; m.write(nv) } });
+            t.expect("FS/GS base", &format!("{}::BASE.write {:#x}", nm, nv), &ev, &[wr(msr, nv)]);
+            // cross-object round trip: written through BASE, read back by the instruction wrapper
+            let (rv, _) = stepped(|| if w == 0 { FS::read_base().as_u64() } else { GS::read_base().as_u64() });
+            if rv != Ok(nv) {
+                t.bad("FS/GS base", "write-through-Segment64::BASE-not-seen-by-read_base", &format!("{}::BASE.write {:#x}", nm, nv), format!("{:x?}", rv));
+            }
+        }
+    }
     // swapgs
     for v in thin(a, canon()) {
         cpu().msr_set(MSR_GS_BASE, v);
